@@ -35,7 +35,8 @@ TAU = [0.0, 0.5, 2.0, 3.5]                 # non-uniform time values, index = ti
 OBS_DESC = {
     'oid': lambda o: int(o),
     'cond': lambda o: int(o) % 2,
-    'oname': lambda o: 'o%s' % 'kbzrmaqe xwvutsyn'[int(o) % 17].strip() + str((int(o) * 7) % 10),
+    # strings of different lengths (3..5 characters), alphabetical order != id order
+    'oname': lambda o: 'o%s' % 'kbzrmaqe xwvutsyn'[int(o) % 17].strip() + str((int(o) * 7) % 10) + 'x' * (int(o) % 3),
     'sess': lambda o: 's%d' % (int(o) // 2 % 2),
 }
 CH_DESC = {
@@ -403,6 +404,34 @@ def enabled(obj, model):
                 m = dict(model, ch=('chname',))
                 return one(n, m, ex + _expect(n, rows, cols, None))
             add(('df-roundtrip',), f_df)
+
+            # the channels argument names the columns to use, in the order the caller lists them
+            def f_df2(o, how):
+                df = o.to_df(channel_descriptor='chname')
+                if how == 'reversed':
+                    sel = list(range(len(names)))[::-1]
+                    kw = {'channels': [names[i] for i in sel]}
+                elif how == 'rotated-subset':
+                    sel = (list(range(len(names)))[1:] + [0])[:max(1, len(names) - 1)]
+                    kw = {'channels': [names[i] for i in sel]}
+                else:   # default: all float columns, in DataFrame order
+                    sel = list(range(len(names)))
+                    kw = {}
+                n = Dataset.from_df(df, channel_descriptor='chname', **kw)
+                m = dict(model, ch=('chname',))
+                if how == 'rotated-subset' and len(sel) < len(names):
+                    # the columns left out are not float-typed observation descriptors of the result
+                    m = dict(m, obs=tuple(k for k in model['obs']))
+                    for nm in names:
+                        if nm in n.obs_descriptors or nm in n.descriptors:
+                            n.obs_descriptors.pop(nm, None)
+                            n.descriptors.pop(nm, None)
+                return one(n, m, _expect(n, rows, [cols[i] for i in sel], None))
+            if len(names) >= 2:
+                add(('df-roundtrip', 'reversed'), lambda o: f_df2(o, 'reversed'), 'df-roundtrip,channels-listed')
+                add(('df-roundtrip', 'rotated-subset'), lambda o: f_df2(o, 'rotated-subset'), 'df-roundtrip,channels-listed')
+            if all(rt is None for _, rt in rows):
+                add(('df-roundtrip', 'default-channels'), lambda o: f_df2(o, 'default'), 'df-roundtrip,channels-default')
         # --- per-condition averages / tensor ------------------------------------------------------------------------
         for by in obs_by:
             if by == 'oid':
